@@ -200,6 +200,14 @@ func NewConfig(prop string, tier string, r *core.Rand) Config {
 			c.Followers = 1
 		}
 	}
+	// swarm: in some worlds the block producer is stopped and reopened between blocks; whatever is kept
+	// in memory only and not rebuilt from the stores then shows against the model
+	if prop != "C08" && prop != "C18" && prop != "C20" {
+		c.PRestartL = []float64{0, 0, 0.05, 0.15}[r.Intn(4)]
+		if prop == "C07" || prop == "C10" || prop == "C12" || prop == "C14" {
+			c.PRestartL = []float64{0, 0.05, 0.15, 0.3}[r.Intn(4)]
+		}
+	}
 	switch prop {
 	case "C06":
 		if r.Chance(0.5) {
@@ -254,6 +262,18 @@ func NewGenesis(c *Config, seed uint64, world int, r *core.Rand) GenesisSpec {
 	if r.Chance(0.25) {
 		gov.MaxValidatorCnt = int64(c.NVals) // more candidates than seats becomes reachable
 	}
+	if r.Chance(0.1) || (c.Property == "C13" && r.Chance(0.25)) {
+		// reward rates at which power x rate leaves 64 bits
+		gov.RewardPerPower, _ = new(big.Int).SetString([]string{"1000000000000000000", "4611686018427387904", "9223372036854775813", "30000000000000000000"}[r.Intn(4)], 10)
+	}
+	if r.Chance(0.1) || ((c.Property == "C16" || c.Property == "C17") && r.Chance(0.25)) {
+		// a minimum gas above the EVM's intrinsic gas
+		gov.MinTrxGas = uint64([]int{30_000, 60_000, 150_000}[r.Intn(3)])
+	}
+	whale := -1
+	if c.NVals > 0 && (r.Chance(0.05) || (c.Property == "C13" && r.Chance(0.2))) {
+		whale = r.Intn(c.NVals) // one validator whose power x the default rate leaves 64 bits
+	}
 	g.Gov = gov
 	for i := 0; i < c.NActors; i++ {
 		ga := GenActor{}
@@ -270,6 +290,9 @@ func NewGenesis(c *Config, seed uint64, world int, r *core.Rand) GenesisSpec {
 			ga.Power = minStakeCoins + int64(r.Range(0, 200))
 			if r.Chance(0.3) {
 				ga.Power = minStakeCoins + 100 // equal powers: ties
+			}
+			if i == whale {
+				ga.Power = 3_000_000_000 + int64(r.Intn(1_000_000))*int64(r.Range(1, 20_000))
 			}
 			if ga.Balance == "0" && r.Chance(0.7) {
 				ga.Balance = new(big.Int).Mul(big.NewInt(int64(r.Range(1000, 100_000))), coin).String()
@@ -422,8 +445,8 @@ func (g *Generator) govOption() string {
 	type f struct{ k, v string }
 	pool := []f{
 		{"gasPrice", fmt.Sprint([]int64{1, 7, 20, 1_000_000_000}[g.r.Intn(4)])},
-		{"minTrxGas", fmt.Sprint([]int{5, 50, 2000, 21000}[g.r.Intn(4)])},
-		{"rewardPerPower", fmt.Sprint([]int64{2, 500, 1_000_000}[g.r.Intn(3)])},
+		{"minTrxGas", fmt.Sprint([]int{5, 50, 2000, 21000, 100000}[g.r.Intn(5)])},
+		{"rewardPerPower", fmt.Sprint([]int64{2, 500, 1_000_000, 2_000_000_000_000_000_000}[g.r.Intn(4)])},
 		{"lazyRewardBlocks", fmt.Sprint(g.r.Range(1, 9))},
 		{"lazyApplyingBlocks", fmt.Sprint(g.r.Range(1, 4))},
 		{"slashRatio", fmt.Sprint(g.r.Range(1, 90))},
@@ -932,6 +955,9 @@ func (g *Generator) NextBlock(h int64) BlockStep {
 		}
 	}
 	// faults
+	if c.PRestartL > 0 && g.r.Chance(c.PRestartL) {
+		st.Faults = append(st.Faults, Fault{Kind: "restart", Replica: 0, At: "end"})
+	}
 	for ri := 1; ri < len(w.Reps); ri++ {
 		if g.r.Chance(c.PRestart) {
 			st.Faults = append(st.Faults, Fault{Kind: "restart", Replica: ri, At: "end"})
